@@ -348,7 +348,21 @@ class Executor(StmtMixin, LoopMixin, DriverMixin):
             if isinstance(node.op, ast.Mod) and a.t == ty.Str:
                 out.append((s, ty.fresh(ty.Str, "fmt")))  # % formatting: opaque string
                 continue
-            out += self.cases(s, ops.binop(type(node.op).__name__, a, b), sink, "L%d" % node.lineno)
+            # None as an operand of an arithmetic operator raises TypeError
+            variants = [(s, a, b)]
+            for which in (0, 1):
+                nxt = []
+                for s1, a1, b1 in variants:
+                    x = (a1, b1)[which]
+                    if isinstance(x.t, ty.Opt) and isinstance(x.t.elem, type(ty.Int)) and x.t.elem == ty.Int:
+                        isn = ty.opt_is_none(x)
+                        for s2, pick in self.cases(s1, [(z3.Not(isn), "val", ty.opt_val(x)), (isn, "exc", "TypeError")], sink, "L%d" % node.lineno):
+                            nxt.append((s2, pick, b1) if which == 0 else (s2, a1, pick))
+                    else:
+                        nxt.append((s1, a1, b1))
+                variants = nxt
+            for s1, a1, b1 in variants:
+                out += self.cases(s1, ops.binop(type(node.op).__name__, a1, b1), sink, "L%d" % node.lineno)
         return out
 
     def x_UnaryOp(self, node, st, sink):
